@@ -49,7 +49,12 @@ func VerifC03Driver() {
 	snapRev := d.table.Revision(d.db.ReadTxn())
 
 	for i := 0; i < N; i++ {
-		op := menu[vnd.IntRange("op", 0, len(menu)-1)]
+		var op int
+		if f := vnd.Param("FIRSTOP", 0); f > 0 && i == 0 {
+			op = f - 1 // scripted first operation
+		} else {
+			op = menu[vnd.IntRange("op", 0, len(menu)-1)]
+		}
 		val := uint64(100 + i)
 		switch op {
 		case wInsert, wInsertWatch:
@@ -78,11 +83,25 @@ func VerifC03Driver() {
 		case wModify:
 			k := vnd.Bytes("k", L)
 			obj := &vobj{id: k, val: val}
+			// merge kinds: a new value computed from both / a fresh copy equal to the old
+			// object (a Modify that leaves the contents as they were is still a successful
+			// write: it is assigned a new revision). Returning the old pointer itself is
+			// rejected by the library (documented panic) and not part of the menu.
+			mk := vnd.IntRange("mergekind", 0, 1)
 			old, had, err := d.table.Modify(wtxn, obj, func(o, n *vobj) *vobj {
+				switch mk {
+				case 1:
+					return &vobj{id: o.id, tags: o.tags, pfx: o.pfx, plen: o.plen, pfx2: o.pfx2, pln2: o.pln2, val: o.val}
+				}
 				return &vobj{id: n.id, val: o.val*2 + n.val}
 			})
 			mo, mh := pending.vals.Get(k)
-			pending.vals.Put(k, vnd.IteU64(mh, mo*2+val, val))
+			if mk == 0 {
+				pending.vals.Put(k, vnd.IteU64(mh, mo*2+val, val))
+			} else {
+				pending.vals.Put(k, vnd.IteU64(mh, mo, val))
+				vnd.Cover("C03.modify-keeps-contents")
+			}
 			pending.rev++
 			pending.revs.Put(k, pending.rev)
 			pa(err == nil, "C03.modify.err")
